@@ -226,8 +226,17 @@ def model_only(chk, prop, runs=12, nsteps=300, gen_kw=None, seed_mul=15485863):
 
 
 def replay(chk, path, prop, which=None):
-    exe = vlib.build_srv()
     ops = [l.strip() for l in open(path) if l.strip() and not l.startswith("#")]
+    if ops and not ops[0].startswith("cfg "):
+        # a replay file for the pure harness (codec / wire ops): a sanitizer abort there is the violation
+        r = vlib.run_lines(vlib.build_harness("h_pure", ["h_pure.c"], vlib.PURE_OBJS), ops)
+        for o, l in zip(ops, r.lines):
+            print(o[:110], "->", l[:240])
+        if r.rc != 0:
+            print("ABORT rc=%d\n%s" % (r.rc, r.stderr[-1500:]))
+        chk.cov.update({"evaluations": len(ops), "distinct_nontrivial": 0})
+        return 1 if r.rc != 0 else 0
+    exe = vlib.build_srv()
     steps, dead, m = replay_ops(exe, ops, which or (prop,))
     for st in steps:
         print(st.op[:110], "->", srvgen.project(st.line).split(" | st")[0][:240])
